@@ -93,7 +93,16 @@ fn real_main() {
         if ["C13", "C14"].contains(&p) { r7::provider_error_kinds(&mut ctx, p); }
         if p == "C16" { r7::long_timestamp_pairs(&mut ctx); }
         if p == "C17" { props_runtime::c17_levels_and_histories(&mut ctx); }
-        if p == "C05" { r7::mirrored_query_params(&mut ctx, p); }
+        if p == "C05" { r7::mirrored_query_params(&mut ctx, p); r7::unsigned_token_header(&mut ctx, p); }
+        // stages added after the eighth round
+        if ["C01", "C14", "C15"].contains(&p) { r7::adapter_histories(&mut ctx, p); }
+        if p == "C03" { r7::colliding_configs(&mut ctx, p); }
+        if p == "C04" { r7::expires_parameter(&mut ctx, p); }
+        if ["C02", "C08"].contains(&p) { r7::high_bytes_everywhere(&mut ctx, p); }
+        if p == "C11" { r7::token_alphabet_header_names(&mut ctx, p); r7::canonical_request_histories(&mut ctx, p); }
+        if p == "C16" { r7::leap_seconds_and_double_encoding(&mut ctx, p); }
+        if p == "C19" { r7::empty_auth_items(&mut ctx, p); }
+        if ["C12", "C13"].contains(&p) { r7::empty_body_bad_charset(&mut ctx, p); }
         if ["C16", "C19", "C13"].contains(&p) { r7::malformed_amz_date_beside_date(&mut ctx, p); }
         if ["C08", "C16"].contains(&p) { r7::tokens_and_damaged_dates(&mut ctx, p); }
         if ["C13", "C19"].contains(&p) { r7::many_auth_items(&mut ctx, p); }
